@@ -338,6 +338,142 @@ def c10_product(cfg):
     return rec
 
 
+def c10_formats(cfg):
+    """(a) the caller's input containers (list / dicts / arrays) are never modified; (b) history independence when the
+    Hamiltonian is a sympy matrix that the library Taylor-expands lazily (its own cached derivative series)."""
+    import sympy
+    from pymablock import block_diagonalize
+    from scipy import sparse
+
+    from .. import sympy_bridge as sb
+
+    rec = Rec("C10", cfg)
+    rec.nontrivial = True
+    mode = cfg["mode"]
+    if mode == "containers":
+        N = 3
+        herm = cfg.get("hermitian", True)
+        H1 = symc.SymArray(symc.hermitian("h_", N) if herm else symc.general("h_", N))
+        H2 = symc.SymArray(symc.hermitian("g_", N) if herm else symc.general("g_", N))
+        I3 = np.eye(N)
+        vecs = [I3[:, :1], I3[:, 1:]]
+        x, y = sympy.symbols("x y", real=True)
+
+        def variants():
+            H0d = np.diag([0.0, 1.0, 3.0])
+            yield "list dense diagonal h0", [H0d, H1, H2], dict(subspace_eigenvectors=vecs)
+            yield "dict tuple keys dense diagonal h0", {(0, 0): np.diag([0.0, 1.0, 3.0]), (1, 0): H1, (0, 1): H2}, dict(subspace_eigenvectors=vecs)
+            yield "dict tuple keys sparse h0", {(0,): sparse.csr_array(np.diag([0.0, 1.0, 3.0])), (1,): H1}, dict(subspace_eigenvectors=vecs)
+            yield "dict tuple keys coo h0", {(0,): sparse.coo_array(np.diag([0.0, 1.0, 3.0])), (1,): H1}, dict(subspace_eigenvectors=vecs)
+            yield "dict monomial keys", {sympy.S.One: np.diag([0.0, 1.0, 3.0]), x: H1, y: H2}, dict(subspace_eigenvectors=vecs)
+            S0 = sympy.diag(0, 1, 3)
+            S1 = sb.matrix_to_sympy(H1)
+            yield "list of sympy matrices", [S0, S1], dict(subspace_indices=[0, 1, 1])
+            yield "dict of sympy matrices", {(0,): sympy.diag(0, 1, 3), (1,): S1}, dict(subspace_indices=[0, 1, 1])
+
+        for name, ham, kw in variants():
+            keys = list(ham.keys()) if isinstance(ham, dict) else list(range(len(ham)))
+            before = {}
+            for k in keys:
+                v = ham[k]
+                if sparse.issparse(v):
+                    snap = (type(v), v.toarray().copy())
+                elif isinstance(v, np.ndarray) and v.dtype != object:
+                    snap = (type(v), v.copy())
+                elif isinstance(v, np.ndarray):
+                    snap = (type(v), [id(e) for e in v.flat])
+                else:
+                    snap = (type(v), v.copy() if hasattr(v, "copy") else v)
+                before[k] = (id(v), snap)
+            if "subspace_eigenvectors" in kw:
+                vec_snap = [v.copy() for v in kw["subspace_eigenvectors"]]
+            series = block_diagonalize(ham, hermitian=herm, **kw)
+            nper = series[0].n_infinite
+            for S in series:
+                for o in itertools.product(range(3), repeat=nper):
+                    if sum(o) <= 2:
+                        S[(0, 0, *o)]
+                        S[(0, 1, *o)]
+            problems = []
+            now_keys = list(ham.keys()) if isinstance(ham, dict) else list(range(len(ham)))
+            if now_keys != keys:
+                problems.append("keys changed")
+            for k in keys:
+                v = ham[k]
+                ident, (typ, snap) = before[k]
+                if id(v) != ident or type(v) is not typ:
+                    problems.append(f"value under key {k!r} replaced ({typ.__name__} -> {type(v).__name__})")
+                    continue
+                if sparse.issparse(v):
+                    same = np.array_equal(v.toarray(), snap)
+                elif isinstance(v, np.ndarray) and v.dtype != object:
+                    same = np.array_equal(v, snap)
+                elif isinstance(v, np.ndarray):
+                    same = [id(e) for e in v.flat] == snap
+                else:
+                    same = v == snap
+                if not same:
+                    problems.append(f"contents under key {k!r} modified")
+            if "subspace_eigenvectors" in kw and not all(np.array_equal(a, b) for a, b in zip(kw["subspace_eigenvectors"], vec_snap)):
+                problems.append("subspace_eigenvectors modified")
+            if problems:
+                rec.direct_violation(f"input container mutated: {name}", f"history:input-container-mutated:{name.split()[0]}", {"format": name, "problems": problems})
+            else:
+                rec.discharged(f"input container untouched: {name}", "confirmed")
+        rec.sample = {"config": cfg}
+        return rec
+    # mode == "sympy_taylor": two symbols, mixed monomials with unequal exponents
+    herm = cfg.get("hermitian", True)
+    N = 2
+    A, B, C, D = (symc.hermitian(nm, N) if herm else symc.general(nm, N) for nm in ("a_", "b_", "c_", "d_"))
+    x, y = sympy.Symbol("l0", real=True), sympy.Symbol("l1", real=True)
+    H = sympy.diag(0, 1) + x * sb.matrix_to_sympy(A) + y * sb.matrix_to_sympy(B) + x * y**2 * sb.matrix_to_sympy(C) + x**2 * y * sb.matrix_to_sympy(D)
+    tr = sb.Translator()
+
+    def fresh():
+        return block_diagonalize(H, subspace_indices=[0, 1], symbols=[x, y], hermitian=herm)
+
+    def val(S, key):
+        from pymablock.series import one, zero
+
+        v = S[key]
+        if v is zero:
+            return symc.zeros(1, 1)
+        if v is one:
+            return symc.eye(1)
+        return sb.matrix_to_symc(sympy.Matrix(v), tr)
+
+    eq = EqCache(rec)
+    orders = [o for o in itertools.product(range(4), repeat=2) if sum(o) <= cfg["max_order"]]
+    w = cfg["series"]
+    blocks = [(0, 0), (0, 1)]
+    ref = {}
+    for o in orders:
+        for b in blocks:
+            ref[(b, o)] = val(fresh()[w], (*b, *o))  # one fresh computation per element
+    alpha = [(b, o) for o in orders if sum(o) >= 2 for b in blocks]
+    scheds = list(itertools.product(alpha, repeat=2))
+    ci, cn = cfg.get("chunk", (0, 1))
+    scheds = scheds[ci::cn]
+    fails = []
+    for sched in scheds:
+        S = fresh()[w]
+        for b, o in sched:
+            r = eq.same(val(S, (*b, *o)), ref[(b, o)])
+            if r is False:
+                fails.append({"schedule": [[list(bb), list(oo)] for bb, oo in sched], "at": [list(b), list(o)], "kind": "value differs from fresh computation"})
+                break
+        if fails:
+            break
+    if fails:
+        rec.direct_violation(f"schedule {fails[0]['schedule']}", f"history:sympy-taylor:series={NAMES[w]}", fails[0])
+    else:
+        rec.discharged(f"{len(scheds)} request pairs on a lazily Taylor-expanded sympy Hamiltonian (2 symbols, mixed monomials): values equal fresh computations "
+                       f"({eq.structural} entries syntactically, {eq.solver_calls} by z3)", "unsat")
+    rec.sample = {"config": cfg, "schedules": len(scheds)}
+    return rec
+
+
 # ------------------------------------------------------------------------------------------------
 # C11
 
@@ -619,6 +755,11 @@ def configs_c10(tier, seed):
             add(**a, k=2, slices=True, chunk=(c, 6))
         add(**a, k=5, sample=40 if tier == "quick" else 400, sample_seed=7 + seed, slices=True)
     out = [("vf.props.history", "c10", c) for c in cfgs]
+    for herm in (True, False):
+        out.append(("vf.props.history", "c10_formats", dict(formats=True, mode="containers", hermitian=herm)))
+        for w in range(3):
+            for c in range(4):
+                out.append(("vf.props.history", "c10_formats", dict(formats=True, mode="sympy_taylor", hermitian=herm, series=w, max_order=3, chunk=[c, 4])))
     for nf in (2, 3):
         for nb in (1, 2):
             out.append(("vf.props.history", "c10_product", dict(product=True, factors=nf, blocks=nb, factor_order=2, max_order=3,
